@@ -1744,6 +1744,11 @@ class Pool:
         debug('finalizing pool')
 
         worker_handler.terminate()
+        # wait for it: a replacement worker it is starting right now would
+        # otherwise be missed by the kill loop below (no process yet) and
+        # joined for ever.
+        debug('joining worker handler')
+        stop_if_not_current(worker_handler)
 
         task_handler.terminate()
         taskqueue.put(None)                 # sentinel
